@@ -87,6 +87,9 @@ def rerun(sid, tier="quick"):
     finally:
         sh("git -C /repo checkout -- . && git -C /repo clean -fdq pkg")
     hit = "VIOLATION" in o
+    if "harness-build" in o or "lean-build" in o or " 0 cases" in o:
+        print("%-50s ERROR: the check did not run (build failure with the change applied?): %s" % (sid, o.strip()[-200:]))
+        return None
     print("%-50s %s  (%s)" % (sid, "caught" if hit else "MISSED", prop))
     return hit
 if __name__ == "__main__":
